@@ -1,4 +1,4 @@
 SPECIFICATION MCSpec
-CONSTANTS Tier = "quick" MaxLen = 4
+CONSTANTS Tier = "quick" MaxLen = 4 Part = "main"
 INVARIANT RefVerifyOK RefGenerateOK RefSetKeyOK ConfigOnlyFromConfigCalls Emit
 CHECK_DEADLOCK FALSE
